@@ -302,7 +302,7 @@ PROPS = {
                 "are part of the shared token list; PROPCONTAIN (on implementation and on model): declarations before k keep their "
                 "sub-tree verbatim, declarations after k keep it up to the Reference offset, every lexical/syntax diagnostic lies in "
                 "the damaged segment; NEW (full analysis of the damaged program: implementation vs model). " + TEXT_RULE,
-        "unproved_parts": ["prefix_verbatim (declarations in front of anything are parsed verbatim), global_resync and loop_resumes ARE theorems; that the "
+        "unproved_parts": ["keywords_start_declarations (every proc/type keyword of ANY token sequence starts its own declaration node: damage never swallows a declaration keyword), prefix_verbatim (declarations in front of anything are parsed verbatim), global_resync and loop_resumes ARE theorems; that the "
                            "sub-trees BEHIND the damage equal those of the undamaged program up to the Reference offset (needs the index-shift invariance of the "
                            "grammar specification) and the confinement of diagnostics to the damaged segment are evaluated (PROPCONTAIN) on implementation "
                            "and model, not theorems",
